@@ -20,11 +20,12 @@ def meta(pid):
                 out[n] = ast.literal_eval(node.value)
     return out
 
+READY = set(json.loads((V / "tools" / "ready.json").read_text()))
 checks, na = [], []
 for pr in props:
     pid = pr["id"]
     m = meta(pid)
-    if m is None or pid in NA:
+    if m is None or pid in NA or pid not in READY:
         na.append({"property_id": pid, "reason": NA.get(pid, "monitor not built yet in this session (work in progress)")})
         continue
     mf = m.get("MANIFEST", {})
